@@ -26,6 +26,21 @@ MaxSlope(ir) ==
            lastY == IF used = {} THEN RRate(ir.zero) ELSE Y(CHOOSE j \in used : \A k \in used : k <= j)
        IN FoldSet(LAMBDA i, m : RMax(m, SegSlope(PX(i), PY(i), X(i), Y(i))), SegSlope(lastX, lastY, ROne, RRate(ir.hundred)), used)
 
+\* a bank that still carries the three-parameter curve is converted by migrate_curve (permissionless): what comes out is a
+\* configuration the program has accepted for that bank - it must be a valid seven-point curve, and the same curve
+\* (at 0, at the kink, at 100 %, and half way along both segments) up to the resolution of the u32 encoding
+C18Migrate(pre, e, post, line) ==
+  (e.ev = "migrate_curve" /\ Ok(e) /\ Has(e.a, "bank") /\ Has(pre.banks, e.a.bank) /\ Has(post.banks, e.a.bank)
+   /\ pre.banks[e.a.bank].cfg.ir.curve_type = 0) =>
+    LET o == pre.banks[e.a.bank].cfg.ir n == post.banks[e.a.bank].cfg.ir
+        opt == R(o.opt_util)
+        us == {RZero, opt, ROne, RDiv(opt, RInt(2)), RDiv(RAdd(opt, ROne), RInt(2))}
+        tol == RMul(RMake(BOfInt(1), BOfInt(100000000)), RAdd(RInt(2), MaxSlope(o)))
+    IN /\ Chk("C18", "migrated_curve_is_valid", line, n.curve_type = 1 /\ CurveValid(n), [bank |-> e.a.bank])
+       /\ (n.curve_type = 1 /\ CurveValid(n) /\ CurveValid(o)) =>
+            Chk("C18", "migrated_curve_is_the_same_curve", line,
+                \A u \in us : RLe(RAbs(RSub(RefBaseRate(n, u), RefBaseRate(o, u))), tol), [bank |-> e.a.bank])
+
 C18(pre, e, post, line) ==
   (e.ev = "curve") =>
     LET ir == IrOfAction(e.a) IN
